@@ -28,6 +28,20 @@ class ModelD:
         self.d, self.free = d, free
 
 
+class DataL:
+    """Class group holding a list-typed link source."""
+
+    def __init__(self, n: List[int] = [3], m: int = 4):  # noqa: B006 - never mutated, jsonargparse copies defaults
+        self.n, self.m = n, m
+
+
+class ModelL:
+    """Class group whose list-typed parameter `k` is a link target: its option has the append spelling --model.k+."""
+
+    def __init__(self, k: List[int], free: int = 7):
+        self.k, self.free = k, free
+
+
 class Base:
     """Class-typed argument; `k` (required) is the link target."""
 
@@ -99,4 +113,13 @@ def fhalf(g):
     return g["m"] * 10 + 3
 
 
-FUNCS = {"f1": f1, "f2": f2, "fgroup": fgroup, "fgroup_dict": fgroup_dict, "fspec": fspec, "fbad": fbad, "fhalf": fhalf}
+def flist(a):
+    """List of ints -> list of ints (injective)."""
+    return [x * 10 + 1 for x in a]
+
+
+def fnot(a):
+    return not a
+
+
+FUNCS = {"flist": flist, "fnot": fnot, "f1": f1, "f2": f2, "fgroup": fgroup, "fgroup_dict": fgroup_dict, "fspec": fspec, "fbad": fbad, "fhalf": fhalf}
